@@ -572,6 +572,19 @@ where
 		}
 	};
 
+	// what was requested at initiation, whatever the log entry (written from the slate that
+	// was used to lock the outputs) says
+	if let Some(ref requested) = context.payment_proof_recipient {
+		match slate.payment_proof {
+			Some(ref p) if p.receiver_address == *requested => {}
+			_ => {
+				return Err(Error::PaymentProof(
+					"Expected Payment Proof for this Transaction is not present".to_owned(),
+				))
+			}
+		}
+	}
+
 	if orig_proof_info.is_some() && slate.payment_proof.is_none() {
 		return Err(Error::PaymentProof(
 			"Expected Payment Proof for this Transaction is not present".to_owned(),
